@@ -339,6 +339,7 @@ Qed.
 
 (* lia on the length side conditions only (the valuation facts are dropped first) *)
 Ltac elia := repeat match goal with H : context [valN] |- _ => clear H end; unfold wire in *; lia.
+Ltac slia := unfold wire in *; lia.
 
 (* ---------- NewKaratsubaMultiplier ---------- *)
 Theorem okp_karatsuba : forall fuel limit a b r,
@@ -388,39 +389,47 @@ Proof.
     assert (Sb2 : forall e, valN e b2 = valN e bLow + 2 ^ N.of_nat mid * valN e bHigh).
     { intros e. rewrite <- (firstn_skipn mid b2), valN_app, <- EbL, <- EbH, LbL. reflexivity. }
     clear EaL EaH EbL EbH.
+    remember (n - mid)%nat as h eqn:Eh.
+    assert (Hh : (n = mid + h)%nat /\ (mid <= h <= mid + 1)%nat) by lia.
+    assert (Hmax : Nat.max mid h = h) by lia.
+    assert (Hnr : (n <= length r)%nat) by lia.
+    assert (Hnf : (n <= f)%nat) by lia.
+    clear Eh Hmid La2 HF HM En Lb2.
+    rewrite ?LaL, ?LbL, ?LaH, ?LbH. rewrite ?Nat.max_id, ?Hmax, ?Nat.max_id.
     (* z0 = aLow * bLow *)
     eapply okp_bind; [apply okp_fresh_n|]. intros z0w Lz0w. cbv beta.
-    eapply okp_bind; [apply (IH limit aLow bLow z0w); unfold wire in *; lia|]. intros z0 Lz0. cbv beta.
+    eapply okp_bind; [apply (IH limit aLow bLow z0w); slia|]. intros z0 Lz0. cbv beta.
     (* aSum, bSum *)
     eapply okp_bind; [apply okp_fresh_n|]. intros aSw LaSw. cbv beta.
-    eapply okp_bind; [apply (okp_new_adder_yao aLow aHigh aSw); unfold wire in *; lia|]. intros aS LaS. cbv beta.
+    eapply okp_bind; [apply (okp_new_adder_yao aLow aHigh aSw); slia|]. intros aS LaS. cbv beta.
     eapply okp_bind; [apply okp_fresh_n|]. intros bSw LbSw. cbv beta.
-    eapply okp_bind; [apply (okp_new_adder_yao bLow bHigh bSw); unfold wire in *; lia|]. intros bS LbS. cbv beta.
+    eapply okp_bind; [apply (okp_new_adder_yao bLow bHigh bSw); slia|]. intros bS LbS. cbv beta.
     (* z1 = aSum * bSum *)
     eapply okp_bind; [apply okp_fresh_n|]. intros z1w Lz1w. cbv beta.
-    eapply okp_bind; [apply (IH limit aS bS z1w); unfold wire in *; lia|]. intros z1 Lz1. cbv beta.
+    eapply okp_bind; [apply (IH limit aS bS z1w); slia|]. intros z1 Lz1. cbv beta.
     (* z2 = aHigh * bHigh *)
     eapply okp_bind; [apply okp_fresh_n|]. intros z2w Lz2w. cbv beta.
-    eapply okp_bind; [apply (IH limit aHigh bHigh z2w); unfold wire in *; lia|]. intros z2 Lz2. cbv beta.
+    eapply okp_bind; [apply (IH limit aHigh bHigh z2w); slia|]. intros z2 Lz2. cbv beta.
+    clear IH.
     (* sub1 = z1 - z2, sub2 = sub1 - z0 *)
     eapply okp_bind; [apply okp_fresh_n|]. intros s1w Ls1w. cbv beta.
-    eapply okp_bind; [apply (okp_new_subtractor_yao_any z1 z2 s1w); unfold wire in *; lia|]. intros s1 Ls1. cbv beta.
+    eapply okp_bind; [apply (okp_new_subtractor_yao_any z1 z2 s1w); slia|]. intros s1 Ls1. cbv beta.
     eapply okp_bind; [apply okp_fresh_n|]. intros s2w Ls2w. cbv beta.
-    eapply okp_bind; [apply (okp_new_subtractor_yao_any s1 z0 s2w); unfold wire in *; lia|]. intros s2 Ls2. cbv beta.
+    eapply okp_bind; [apply (okp_new_subtractor_yao_any s1 z0 s2w); slia|]. intros s2 Ls2. cbv beta.
     (* shifts and final additions *)
-    eapply okp_bind; [apply okp_shift_left; unfold wire in *; lia|]. intros sh1 Lsh1. cbv beta.
-    eapply okp_bind; [apply okp_shift_left; unfold wire in *; lia|]. intros sh2 Lsh2. cbv beta.
+    eapply okp_bind; [apply okp_shift_left; slia|]. intros sh1 Lsh1. cbv beta.
+    eapply okp_bind; [apply okp_shift_left; slia|]. intros sh2 Lsh2. cbv beta.
     eapply okp_bind; [apply okp_fresh_n|]. intros a1w La1w. cbv beta.
-    eapply okp_bind; [apply (okp_new_adder_yao sh1 sh2 a1w); unfold wire in *; lia|]. intros a1 La1. cbv beta.
-    eapply okp_weaken; [apply (okp_new_adder_yao a1 z0 r); unfold wire in *; lia | auto | ].
+    eapply okp_bind; [apply (okp_new_adder_yao sh1 sh2 a1w); slia|]. intros a1 La1. cbv beta.
+    eapply okp_weaken; [apply (okp_new_adder_yao a1 z0 r); slia | auto | ].
     cbv beta. intros r' e _ Hfin Ha1 _ Hsh2 Hsh1 Hs2 _ Hs1 _ Hz2 _ Hz1 _ HbS _ HaS _ Hz0 _ [Za Zb].
     cbv beta in *.
     rewrite La1w in Ha1. rewrite Ls1w in Hs1. rewrite Ls2w in Hs2.
     (* the operand sums are exact *)
     assert (EaS : valN e aS = valN e aLow + valN e aHigh).
-    { rewrite HaS, LaSw. apply N.mod_small. apply ks_sum_lt; [apply Nat.le_max_l | apply Nat.le_max_r]. }
+    { rewrite HaS, LaSw. apply N.mod_small. apply ks_sum_lt; elia. }
     assert (EbS : valN e bS = valN e bLow + valN e bHigh).
-    { rewrite HbS, LbSw. apply N.mod_small. apply ks_sum_lt; [apply Nat.le_max_l | apply Nat.le_max_r]. }
+    { rewrite HbS, LbSw. apply N.mod_small. apply ks_sum_lt; elia. }
     (* the three products modulo 2^len(r) *)
     assert (M0 : valN e z0 mod 2 ^ N.of_nat (length r)
                  = (valN e aLow * valN e bLow) mod 2 ^ N.of_nat (length r)).
@@ -443,12 +452,8 @@ Proof.
         [left; exact Hc | right].
       (* z1 and z2 are narrower than r, hence exact, and z2 <= z1 *)
       rewrite Hz1, Hz2, Lz1w, Lz2w.
-      replace (Nat.min (Nat.max (length aHigh) (length bHigh) * 2) (length r))
-        with (Nat.max (length aHigh) (length bHigh) * 2)%nat by (elia).
-      replace (Nat.min (Nat.max (Nat.max (length aLow) (length aHigh) + 1)
-                                (Nat.max (length bLow) (length bHigh) + 1) * 2) (length r))
-        with (Nat.max (Nat.max (length aLow) (length aHigh) + 1)
-                      (Nat.max (length bLow) (length bHigh) + 1) * 2)%nat by (elia).
+      replace (Nat.min (h * 2) (length r)) with (h * 2)%nat by (elia).
+      replace (Nat.min ((h + 1) * 2) (length r)) with ((h + 1) * 2)%nat by (elia).
       rewrite (N.mod_small (valN e aHigh * valN e bHigh)) by (apply ks_prod_lt; elia).
       rewrite (N.mod_small (valN e aS * valN e bS)) by (apply ks_prod_lt; elia).
       rewrite EaS, EbS. apply N.mul_le_mono; apply N.le_add_l. }
